@@ -75,6 +75,9 @@ def sweep_scenarios(quick, seed):
                 if quick and k % 3 != seed % 3:
                     continue
                 out.append({"ttl": TICK, "jump": 10 * TICK, "later": 0, "op": op, "sized": sized, "syncexec": (k // 2) % 2, "warm": n, "max": 0})
+    # the size policy's victim, at exactly its deadline, revived by a reader between the eviction callback and the removal in the table
+    for ttl in (3 * TICK, 10 * TICK):
+        out.append({"ttl": ttl, "jump": 0, "later": 0, "op": "gate.size", "sized": 1, "syncexec": 1, "warm": 0, "max": 0})
     # a write that finds the entry expired, while a reader stores an extended deadline into the node being replaced
     k = 0
     for ttl in (3 * TICK, 10 * TICK):
@@ -145,9 +148,9 @@ def read_race_half(prop, tier, mc_out=None):
     runs), judged by SweepHist.tla; returns (scenarios, [(pred, detail, path)] owned by `prop`, broken)."""
     seed = vlib.seed()
     if prop == "C06":
-        scs = [sc for sc in sweep_scenarios(False, seed) if sc["op"].startswith(("gate.", "sia."))]
+        scs = [sc for sc in sweep_scenarios(False, seed) if sc["op"].startswith(("gate.", "sia.")) and sc["op"] != "gate.size"]
     elif prop == "C05":
-        scs = [sc for sc in sweep_scenarios(False, seed) if sc["op"].startswith("sia.")]
+        scs = [sc for sc in sweep_scenarios(False, seed) if sc["op"].startswith("sia.") or sc["op"] == "gate.size"]
     elif prop == "C08":
         scs = [sc for sc in sweep_scenarios(False, seed) if sc["op"].startswith("ld.")]
     else:
@@ -328,6 +331,8 @@ def run(prop, tier, replay=None):
                         r["mustsweep"], r["deadlinepassed"] = 0, 1
                     if sc["op"].startswith("late."):
                         r["mustsweep"], r["deadlinepassed"] = 1, 1
+                    if sc["op"] == "gate.size":
+                        r["mustsweep"], r["deadlinepassed"] = 0, 0
                     if sc["op"].startswith(("read.", "gate.", "sia.")):
                         # the extended deadline is at most (ttl - 1000) + ttl after the write; later = 3 ttl + 5 ticks lies beyond it
                         r["mustsweep"], r["deadlinepassed"] = 1, 1
